@@ -10,6 +10,7 @@ import (
 	"strings"
 	"sync"
 	"syscall"
+	"time"
 )
 
 // Crash-isolated execution of a stream: the index range is cut into chunks,
@@ -91,7 +92,7 @@ func RunChildren(m *M, kind, stream string, lo, hi int64, par int, onDeath func(
 				cmd.Env = append(os.Environ(), "VERIF_SEED="+strconv.FormatInt(m.Seed, 10), "VERIF_TIER="+m.Tier, "VERIF_REPLAY=", "GOTRACEBACK=single")
 				cmd.Stderr = ef
 				cmd.Stdout = ef
-				err := cmd.Run()
+				err, stalled := runWatched(cmd, jr)
 				ef.Close()
 				if merr := m.MergePartial(out); merr != nil && err == nil {
 					m.Broken("child produced no result file: " + merr.Error())
@@ -106,6 +107,23 @@ func RunChildren(m *M, kind, stream string, lo, hi int64, par int, onDeath func(
 					}
 					tail, _ := os.ReadFile(errf)
 					d := Death{Index: last, Exit: err.Error(), Stderr: firstFatalLine(string(tail)), Kind: "fatal"}
+					if stalled {
+						// the child made no progress (no CPU time, same journal entry) and was asked for a goroutine dump
+						if blocked, why := allGoroutinesBlocked(string(tail)); blocked {
+							d.Kind, d.Stderr = "deadlock", "no goroutine can run: "+why
+						} else {
+							m.Inconclusive(fmt.Sprintf("%s case %d: child stopped making progress but its goroutine dump is not a deadlock (%s)", stream, last, why))
+							m.AddEvals(last - j.lo + 1)
+							if last+1 < j.hi {
+								add(job{last + 1, j.hi})
+							}
+							os.Remove(out)
+							os.Remove(jr)
+							os.Remove(errf)
+							done()
+							continue
+						}
+					}
 					if ee, ok := err.(*exec.ExitError); ok {
 						if st, ok := ee.Sys().(syscall.WaitStatus); ok && st.Signaled() {
 							d.Exit = "signal " + st.Signal().String()
@@ -131,6 +149,93 @@ func RunChildren(m *M, kind, stream string, lo, hi int64, par int, onDeath func(
 		}(w)
 	}
 	wg.Wait()
+}
+
+// runWatched runs the child and watches its progress: if neither its CPU time nor its journal entry changes
+// for two minutes it is sent SIGQUIT (the Go runtime then dumps every goroutine) and stalled is true. The
+// watchdog itself decides nothing: the dump does (allGoroutinesBlocked).
+func runWatched(cmd *exec.Cmd, journal string) (err error, stalled bool) {
+	if err = cmd.Start(); err != nil {
+		return err, false
+	}
+	done := make(chan error, 1)
+	go func() { done <- cmd.Wait() }()
+	tick := time.NewTicker(5 * time.Second)
+	defer tick.Stop()
+	idle, lastCPU, lastJ := 0, int64(-1), int64(-1)
+	for {
+		select {
+		case err = <-done:
+			return err, stalled
+		case <-tick.C:
+			cpu, j := procCPU(cmd.Process.Pid), int64(-1)
+			if b, e := os.ReadFile(journal); e == nil && len(b) >= 8 {
+				j = int64(binary.LittleEndian.Uint64(b))
+			}
+			if cpu == lastCPU && j == lastJ {
+				idle++
+			} else {
+				idle = 0
+			}
+			lastCPU, lastJ = cpu, j
+			if idle == 24 {
+				stalled = true
+				cmd.Process.Signal(syscall.SIGQUIT)
+			}
+			if idle >= 30 {
+				cmd.Process.Kill()
+			}
+		}
+	}
+}
+
+// procCPU returns utime+stime (clock ticks) of a process, -2 if unknown.
+func procCPU(pid int) int64 {
+	b, err := os.ReadFile(fmt.Sprintf("/proc/%d/stat", pid))
+	if err != nil {
+		return -2
+	}
+	s := string(b)
+	if i := strings.LastIndex(s, ")"); i >= 0 {
+		f := strings.Fields(s[i+1:])
+		if len(f) > 13 {
+			u, _ := strconv.ParseInt(f[11], 10, 64)
+			k, _ := strconv.ParseInt(f[12], 10, 64)
+			return u + k
+		}
+	}
+	return -2
+}
+
+// allGoroutinesBlocked inspects a SIGQUIT goroutine dump: a deadlock is a state in which every goroutine
+// waits for another one (lock, wait group, channel, condition) and at least one waits for a lock.
+func allGoroutinesBlocked(dump string) (bool, string) {
+	n, locks := 0, 0
+	for _, ln := range strings.Split(dump, "\n") {
+		if !strings.HasPrefix(ln, "goroutine ") || !strings.Contains(ln, "[") {
+			continue
+		}
+		st := ln[strings.Index(ln, "[")+1:]
+		if i := strings.IndexAny(st, ",]"); i >= 0 {
+			st = st[:i]
+		}
+		n++
+		switch {
+		case strings.HasPrefix(st, "sync.Mutex.Lock"), strings.HasPrefix(st, "sync.RWMutex"), strings.HasPrefix(st, "semacquire"):
+			locks++
+		case strings.HasPrefix(st, "sync.WaitGroup.Wait"), strings.HasPrefix(st, "chan receive"), strings.HasPrefix(st, "chan send"), strings.HasPrefix(st, "select"), strings.HasPrefix(st, "sync.Cond.Wait"),
+			strings.HasPrefix(st, "GC "), strings.HasPrefix(st, "finalizer wait"), strings.HasPrefix(st, "force gc"), strings.HasPrefix(st, "idle"), strings.HasPrefix(st, "debug call"), strings.HasPrefix(st, "cleanup wait"):
+		default:
+			return false, fmt.Sprintf("a goroutine is in state %q", st)
+		}
+	}
+	if n == 0 {
+		return false, "no goroutine dump"
+	}
+	if locks == 0 {
+		return false, "no goroutine waits for a lock"
+	}
+	return true, fmt.Sprintf("%d goroutines, %d of them waiting for a lock, the others for those", n, locks)
 }
 
 func firstFatalLine(s string) string {
